@@ -71,7 +71,7 @@ def annotate_citations(
 
     # set up offset_updater if we have to move annotations to source_text
     offset_updater = None
-    if source_text and source_text != plain_text:
+    if source_text is not None and source_text != plain_text:
         offset_updater = SpanUpdater(plain_text, source_text, use_dmp=use_dmp)
         plain_text = source_text
 
